@@ -117,6 +117,7 @@ def run(ctx, rep):
     # ---- header fields are filled from the matching layout quantities ------------------------------------------------
     header_fields(ctx, rep, F, P)
     dynamic_table(ctx, rep, F)
+    segment_start_congruence(ctx, rep, F, P)
     rep.assume("addresses, offsets, sizes: runtime quantities, not decided")
 
 
@@ -259,3 +260,34 @@ def dynamic_table(ctx, rep, F):
     for a, b in (("DT_INIT_ARRAY", "DT_INIT_ARRAYSZ"), ("DT_FINI_ARRAY", "DT_FINI_ARRAYSZ"), ("DT_PREINIT_ARRAY", "DT_PREINIT_ARRAYSZ"), ("DT_STRTAB", "DT_STRSZ"),
                  ("DT_JMPREL", "DT_PLTRELSZ"), ("DT_RELA", "DT_RELASZ"), ("DT_RELR", "DT_RELRSZ")):
         rep.ob("dynamic-table", f"pair:{a}", a in seen and b in seen, f"{a} and {b} are both present in the table", h["file"], h["line"])
+
+
+def segment_start_congruence(ctx, rep, F, P):
+    """p_offset ≡ p_vaddr (mod p_align) needs the file offset at the start of every LOAD segment to be made congruent to the address modulo
+    the *segment's* alignment (page size or the largest section alignment inside it, the value written to p_align), on the explicit-address
+    path (--section-start / script address) as well as on the default path. Congruence modulo the page size alone is not enough when a
+    later section of the segment is aligned to more than a page."""
+    from mir import callee_key, declared_key
+    rep.rule("segment-start-congruence", "in layout_section_parts the alignment used to place the file offset at a LOAD segment start (align_modulo / align_load_segment_start) "
+             "derives from compute_segment_alignments, i.e. from the segment's own alignment, on every path")
+    b = F.body("libwild::layout::layout_section_parts")
+    if b is None:
+        rep.lost("segment-start-congruence", "layout::layout_section_parts")
+        return
+    flow = P.flow(b)
+    n = 0
+    for bi, t in flow.calls():
+        k = (callee_key(t["f"]) or "") + "|" + (declared_key(t["f"]) or "")
+        if "Alignment::align_modulo" in k:
+            arg, what = t["args"][0], "align_modulo"
+        elif "align_load_segment_start" in k:
+            arg, what = t["args"][1], "align_load_segment_start"
+        else:
+            continue
+        n += 1
+        o = flow.deep_origins(arg)
+        ok = any(x[0] == "call" and (x[1] or "").endswith("compute_segment_alignments") for x in o)
+        srcs = sorted({(x[1] or "").split("::")[-1] for x in o if x[0] == "call"})
+        rep.ob("segment-start-congruence", f"{what}#{n}", ok, (f"alignment for {what} derives from the per-segment alignment table" if ok else
+               f"the alignment used by {what} at a segment start derives only from {srcs}: the file offset is then congruent to the address modulo the page size, not modulo p_align"), b.file, t["l"])
+    rep.floor("segment-start-congruence", "segment-start alignment sites", n, 2)
